@@ -12,13 +12,15 @@
    used row, ranged rows come back as ranged rows (native RANGES representation), every number equal as a rational;
    C09_mps_roundtrip_bytes: the same on the bytes of the file.  Layers: fields (C09_mps_field, C09_mps_number),
    records (C09_mps_columns_record, C09_mps_rhs_record, C09_mps_bounds_record), sections (IO/MpsSections.v), file.
+   PROVED for the repaired writer (set names made unique, notes/repo_patches/mps_setname_clash.diff): C09_mps_roundtrip_fixed
+   needs no hypothesis on the set names.
    REFUTED without the set-name hypothesis: C09_mps_setname_clash_refuted (column BOUND + column 2: the bound of "2" lands
    on "BOUND", silently), C09_mps_setname_clash_rhs_refuted - replayed on the library in checks/C09.py (open finding
    F-io-mps-setname-clash-C09; repair in notes/repo_patches/mps_setname_clash.diff).
    C09_wf_test_sound: the executable test wf_mpsb evaluated by the check on every generated problem implies wf_mps.
    C09_mps_sections_roundtrip_partial is the record-level statement of round 2 (kept; superseded by C09_mps_roundtrip).
    lp_mps_agree is evaluated as the executable comparison on every generated problem. *)
-From QSX Require Import LP.User IO.Num IO.NumSound IO.Bounds IO.Equiv IO.Ranges IO.Lex IO.LpWrite IO.LpRead IO.LpTok IO.LpBytes IO.MpsWrite IO.MpsRead IO.MpsTok IO.MpsEquiv IO.MpsRoundtrip IO.MpsWf.
+From QSX Require Import LP.User IO.Num IO.NumSound IO.Bounds IO.Equiv IO.Ranges IO.Lex IO.LpWrite IO.LpRead IO.LpTok IO.LpBytes IO.LpNames IO.MpsWrite IO.MpsRead IO.MpsTok IO.MpsEquiv IO.MpsRoundtrip IO.MpsWf.
 From Coq Require Import List Ascii String QArith.
 Import ListNotations.
 Local Open Scope Q_scope.
@@ -167,20 +169,34 @@ Theorem C09_mps_columns_record :
 Proof. exact ent_record. Qed.
 Print Assumptions C09_mps_columns_record.
 
-(* an RHS record under the heuristic: harmless when RHS is no row name or the row does not start like a number *)
+(* an RHS record under the heuristic, for any set name sn the writer may use: harmless when sn is no row name or the row
+   does not start like a number *)
 Theorem C09_mps_rhs_record :
-  forall M rn v x row, word rn -> x_active x = ARhs ->
-  (x_rhsname x = None \/ x_rhsname x = Some (Some (s2l "RHS"%string))) ->
+  forall M sn rn v x row, word sn -> word rn -> x_active x = ARhs ->
+  (x_rhsname x = None \/ x_rhsname x = Some (Some sn)) ->
   find_row rn x = Some row -> xw_rhsind row = false -> xw_sense row <> None ->
-  (has_row (s2l "RHS"%string) x = true -> numlike rn = false) ->
-  exists t, scan_line (rhs_line rn v) = LTok t /\ t_key t = [] /\ line_in_section true M t x = MOk (rhs_effect rn v x).
+  (has_row sn x = true -> numlike rn = false) ->
+  exists t, scan_line (set_line sn rn v) = LTok t /\ t_key t = [] /\ line_in_section true M t x = MOk (rhs_effect sn rn v x).
 Proof. exact rhs_record. Qed.
 Print Assumptions C09_mps_rhs_record.
 
 Theorem C09_mps_bounds_record :
-  forall M r cn x, word cn -> no_dollar cn -> x_active x = ABounds ->
-  (x_bndname x = None \/ x_bndname x = Some (Some (s2l "BOUND"%string))) ->
-  has_col cn x = true -> (has_col (s2l "BOUND"%string) x = true -> numlike cn = false) ->
-  exists t, scan_line (mrec_line (r, cn)) = LTok t /\ t_key t = [] /\ line_in_section true M t x = MOk (bnd_effect M r cn x).
+  forall M bn r cn x, word bn -> word cn -> no_dollar cn -> x_active x = ABounds ->
+  (x_bndname x = None \/ x_bndname x = Some (Some bn)) ->
+  has_col cn x = true -> (has_col bn x = true -> numlike cn = false) ->
+  exists t, scan_line (mrec_line_gen bn (r, cn)) = LTok t /\ t_key t = [] /\ line_in_section true M t x = MOk (bnd_effect M bn r cn x).
 Proof. exact bnd_record. Qed.
 Print Assumptions C09_mps_bounds_record.
+
+(* ---- the repaired writer (notes/repo_patches/mps_setname_clash.diff): the set names are made unique against the row
+   names and the objective name (RHS, RANGES) and the column names (BOUNDS), as the writer already does for the objective
+   name it invents; then the heuristic of the reader is harmless and the hypothesis on the set names is not needed ---------- *)
+Theorem C09_mps_roundtrip_fixed :
+  forall M, 0 < M -> forall P, wf_core M P ->
+  exists P', read_mps true M (write_mps_fixed M P) = Some P' /\ equiv_by_name (mlp_to_nlp P) (mlp_to_nlp P') = true.
+Proof. exact mps_roundtrip_fixed. Qed.
+Print Assumptions C09_mps_roundtrip_fixed.
+
+Theorem C09_wf_core_test_sound : forall M P, wf_coreb M P = true -> wf_core M P.
+Proof. exact wf_coreb_sound. Qed.
+Print Assumptions C09_wf_core_test_sound.
